@@ -15,7 +15,7 @@ import (
 
 type Case struct {
 	Cmd    string `json:"cmd"`    // migrate-diff | migrate-validate | migrate-lint | schema-apply | schema-diff
-	Dev    string `json:"dev"`    // empty | tables | view | trigger | lookalike | libsql-lookalike | memory
+	Dev    string `json:"dev"`    // empty | tables | view | trigger | lookalike | libsql-lookalike | virtual | memory
 	Files  []int  `json:"files"`  // statements per migration file (directory commands) / statements of the SQL schema
 	FailAt int    `json:"fail_at"` // global index of the failing statement (-1 = none)
 	Style  int    `json:"style"`   // 0 tables+indexes; 1 views first (view-only prefixes / end states); 2 tables, views on them and triggers
@@ -142,6 +142,9 @@ func checkCase(c Case) (Outcome, error) {
 		case "lookalike":
 			// a user table whose name merely starts like SQLite's internal tables (sqlite_...): `_` is a LIKE wildcard
 			setup = append(setup, "CREATE TABLE sqlitex (id integer PRIMARY KEY, note text)", "INSERT INTO sqlitex VALUES (1, 'keep me')")
+		case "virtual":
+			// only a virtual table (full-text index) with its shadow tables and a document
+			setup = append(setup, "CREATE VIRTUAL TABLE docs USING fts4(body)", "INSERT INTO docs (body) VALUES ('keep me')")
 		case "libsql-lookalike":
 			// a user table of a plain SQLite database whose name starts like the internal tables of libSQL servers
 			setup = append(setup, "CREATE TABLE libsql_notes (id integer PRIMARY KEY, note text)", "INSERT INTO libsql_notes VALUES (1, 'keep me')", "CREATE INDEX libsql_notes_note ON libsql_notes (note)")
@@ -251,7 +254,7 @@ func checkCase(c Case) (Outcome, error) {
 		return out, fmt.Errorf("harness: %v", err)
 	}
 	switch c.Dev {
-	case "tables", "view", "trigger", "lookalike", "libsql-lookalike":
+	case "tables", "view", "trigger", "lookalike", "libsql-lookalike", "virtual":
 		out.Refused = r.Code != 0
 		if devAfter != devBefore {
 			return out, fmt.Errorf("%s on a non-empty dev database (%s) modified it (exit %d):\n before:\n%s\n after:\n%s\n%v", c.Cmd, c.Dev, r.Code, devBefore, devAfter, r)
